@@ -3,6 +3,8 @@
    proofs in Proof/Fun2CoreProof.v. *)
 From Coq Require Import List ZArith NArith String Bool.
 From SCC Require Import Lang.FunSyn Lang.CoreSyn Sem.AxSem Sem.CoreSem Sem.FunSem Model.Fun2Core Proof.Fun2CoreProof Proof.Fun2CoreSim.
+From SCC Require Import Proof.Fun2CoreMain Proof.Fun2CoreInv Proof.Fun2CoreRel Proof.Fun2CoreProg Proof.Fun2CoreBarendregt
+     Proof.Fun2CoreExamples.
 Import ListNotations.
 
 (* ---------- the property at full strength (statements) ----------
@@ -39,6 +41,28 @@ Theorem C02_fun2core_capture_refuted :
     run_fun n p args <> run_core n c args.
 Proof. exact fun2core_capture_refuted_lemma. Qed.
 Print Assumptions C02_fun2core_capture_refuted.
+
+(* ---------- refuted: the BARENDREGT-GUARDED statement fails as well (known finding call-to-main) ----------
+   compile_main gives the Core definition `main` no return-continuation parameter (its body ends in
+   `exit`) while every call site passes args ++ [continuation]: a program that calls `main` (witness
+   corpus/fun/call_main_nontail.sc, tied to the real checker's output by modelrun; it satisfies the
+   Barendregt guard and the syntactic capture detector does not fire) prints 3, 107 and returns 8 by the
+   source semantics; its translation is stuck "call-arity" on the Core machine (natively the inner main
+   exits the process with status 7).  Hence ~ fun2core_correct_guarded_statement; the preservation
+   theorems below carry the additional guard [calls_main_prog p = false]. *)
+Theorem C02_fun2core_call_to_main_refuted :
+  exists (p : fcprog) (args : list Z) (c : cprog) (n : nat),
+    annotated_fcprog p = true /\ effect_sequenced p = true /\ barendregt p = true /\
+    shadowing_risk_prog p = false /\ calls_main_prog p = true /\
+    compile_prog p = Ok c /\
+    defined (run_fun n p args) = true /\
+    run_fun n p args <> run_core n c args.
+Proof. exact fun2core_call_to_main_refuted_lemma. Qed.
+Print Assumptions C02_fun2core_call_to_main_refuted.
+
+Theorem C02_fun2core_guarded_statement_refuted : ~ fun2core_correct_guarded_statement.
+Proof. exact fun2core_guarded_statement_refuted_lemma. Qed.
+Print Assumptions C02_fun2core_guarded_statement_refuted.
 
 (* REPAIRED defect (fix commit 126604b of /repo), kept as regression statements.  Before the fix the
    target covariable of `goto k (t)` was typed with the annotation of the goto expression instead of
@@ -151,6 +175,147 @@ Theorem C02_fun2core_correct_partial :
     exists m, run_core m c args = o.
 Proof. exact fun2core_correct_partial_lemma. Qed.
 Print Assumptions C02_fun2core_correct_partial.
+
+(* ---------- semantic preservation, fragment 2: data AND codata ----------
+   A strictly larger fragment than C02_fun2core_correct_partial (which stays as it is): ANY number of
+   definitions, each of them in the fragment, calls between them in tail and non-tail position
+   (a non-tail call creates a mu~ continuation, a tail call passes the return covariable), recursion,
+   conditionals and case in NON-TAIL position (the continuation is lifted to a definition
+   share_<f>_<n> and called with its free variables), let with an arbitrary bound term, data types
+   (constructors, case; clauses bind variables), labels and goto, labels passed to consumer parameters,
+   and CODATA: `new { .. }` (closures, corecursion), destructor calls, by-name `let` and by-name
+   arguments (thunks re-run at every destructor call that reaches them).
+
+   The fragment, spelled out ([frag p t], Model/Fun2CoreGuard.v): all 15 term forms, EXCEPT
+     - a call whose target is `main`                                        (finding call-to-main),
+     - a destructor call in which BOTH the scrutinee and some argument need evaluation (allowed:
+       scrutinee a variable or a `new` with arbitrary data arguments; any scrutinee - calls, chained
+       destructor calls, lets, .. - with arguments that are variables or literals): there the
+       translation evaluates the scrutinee BEFORE the arguments, the source semantics after - the
+       property's precondition "effects sequenced unambiguously" is about exactly this,
+     - continuations or by-name values stored in constructor fields or passed to destructors, case
+       clauses / new clauses with consumer or codata-typed parameters, calls whose argument kinds
+       (chirality, data/codata) differ from the callee's parameter kinds.
+   [kd p t] (the kind discipline, a consequence of typing): operands, conditions, printed values,
+   scrutinees of case and constructor arguments are data; a let-bound term has the kind of its variable;
+   branches / let bodies / clause bodies have the kind of the whole term; a `new` is codata and each of
+   its clause bodies has the kind its destructor returns ([dkind]); EXCLUDED by it: conditionals, case
+   and labels of CODATA type (their continuation would be shared at a codata type: the PDelay mechanism
+   of the Core machine), goto targets and consumer arguments of codata type.
+   [prog_guard p] (Model/Fun2CoreGuard.v): every definition d satisfies
+     frag p (fdbody d), kd p (fdbody d)      the fragment and the kind discipline, the body has the kind of
+                                             the declared return type,
+     ws (compile_ctx (fdctx d)) (fdbody d)   well-scoped: every variable/covariable occurrence is in scope
+                                             of a parameter or binder of the SAME kind and type
+                                             annotation (what the type checker guarantees),
+     nocap (fdbody d)                        the CAPTURE GUARD: wherever the translation places a
+                                             continuation built from a term u under the binders of a
+                                             term t (let-bound term / case or destructor scrutinee /
+                                             labelled term), the binders of t are distinct from all
+                                             names of u; implied by the Barendregt condition (below),
+     and main has data-typed producer parameters and a data result.
+   Conclusion: EVERY source run that ends in a final outcome ([final]: normal exit or undefined
+   arithmetic; stuck and out-of-fuel runs are not compared) is reproduced, output and outcome, by the
+   Core machine on the model's translation.
+
+   Method (Proof/Fun2CoreRel.v .. Fun2CoreFLh.v): a step-indexed forward simulation between CEK
+   configurations and Core machine configurations.  Values: integers, constructor values pointwise,
+   closures and thunks behaviourally (related under every destructor: [Co]); continuations by the KIND of
+   values they expect ([Kk n c]); environments pointwise on the free variables of the statement being
+   run; the syntactic continuation carried by the translation means a source continuation in EVERY
+   environment that agrees on its typed free variables ([KS]) - which is what makes the lifted
+   definitions share_<f>_<n> (environment = parameters only) and by-name thunks work.  WHERE THE GUARD
+   IS USED: only in the cases that put a continuation under a binder - `let x = t; u` (lemma fl_let),
+   `case` (fl_case), destructor calls with a non-atomic scrutinee (fl_dtor_general: the destructor
+   consumer with its arguments is placed under the binders of the scrutinee - capture4.sc),
+   `label`/`goto` - as the disjointness of those binders from the free names of the continuation.
+   Without it the statement is false: capture_witness satisfies frag, kd and ws but not nocap
+   (C02_guard_rejects_capture_witness).
+   NOT COVERED: the exclusions listed above (frag/kd are false on them; no proof holes). *)
+Theorem C02_fun2core_correct_fragment2 :
+  forall (p : fcprog) (c : cprog) (args : list Z) (n : nat) (o : obs),
+    compile_prog p = Ok c ->
+    NoDup (map fdname (fcpdefs p)) ->
+    prog_guard p = true ->
+    run_fun n p args = o -> final o ->
+    exists m, run_core m c args = o.
+Proof. exact fun2core_correct_fragment_lemma. Qed.
+Print Assumptions C02_fun2core_correct_fragment2.
+
+(* the Barendregt condition of the property (binders of a definition pairwise distinct and distinct
+   from its parameters) implies the capture guard, for well-scoped definitions of the fragment *)
+Theorem C02_barendregt_implies_capture_guard : forall p d,
+  frag p (fdbody d) = true -> ws (compile_ctx (fdctx d)) (fdbody d) = true -> barendregt_def d = true ->
+  nocap (fdbody d) = true.
+Proof. exact barendregt_def_nocap. Qed.
+Print Assumptions C02_barendregt_implies_capture_guard.
+
+(* ... so the theorem holds under the guard of fun2core_correct_guarded_statement plus the fragment:
+   [frag_prog p]: every definition is in the fragment and well-scoped, main returns data *)
+Theorem C02_fun2core_correct_fragment2_barendregt :
+  forall (p : fcprog) (c : cprog) (args : list Z) (n : nat) (o : obs),
+    compile_prog p = Ok c ->
+    NoDup (map fdname (fcpdefs p)) ->
+    frag_prog p = true -> barendregt p = true ->
+    run_fun n p args = o -> defined o = true ->
+    exists m, run_core m c args = o.
+Proof.
+  intros p c args n o Hc Hnd Hf Hb Hr Hd.
+  exact (fun2core_correct_fragment_lemma p c args n o Hc Hnd (barendregt_prog_guard p Hf Hb) Hr (defined_final o Hd)).
+Qed.
+Print Assumptions C02_fun2core_correct_fragment2_barendregt.
+
+(* the hypotheses are satisfiable: four concrete multi-definition programs inside the guard, both
+   machines evaluated (vm_compute), the Core side on the model's translation *)
+(* 1. calls: fib (non-tail recursive calls in operand position), even/odd (mutual tail calls) *)
+Example C02_fragment2_example_calls :
+  prog_guard ex_calls = true /\ NoDup (map fdname (fcpdefs ex_calls)) /\
+  compile_prog ex_calls = Ok (compiled_or_empty ex_calls) /\
+  run_fun 3000 ex_calls [10%Z] = ([(true, 55%Z); (true, 1%Z)], OExit 0%Z) /\
+  run_core 5000 (compiled_or_empty ex_calls) [10%Z] = ([(true, 55%Z); (true, 1%Z)], OExit 0%Z).
+Proof. exact ex_calls_ok. Qed.
+(* 2. shared continuations: a conditional as let-bound term (twice, nested let inside a branch): two
+   lifted definitions share_clamp_0, share_clamp_1 *)
+Example C02_fragment2_example_shared :
+  prog_guard ex_shared = true /\ NoDup (map fdname (fcpdefs ex_shared)) /\
+  compile_prog ex_shared = Ok (compiled_or_empty ex_shared) /\
+  (2 <= List.length (cpdefs (compiled_or_empty ex_shared)) - 2)%nat /\
+  run_fun 1000 ex_shared [1%Z] = ([(true, 3%Z); (true, 207%Z)], OExit 0%Z) /\
+  run_core 2000 (compiled_or_empty ex_shared) [1%Z] = ([(true, 3%Z); (true, 207%Z)], OExit 0%Z).
+Proof. exact ex_shared_ok. Qed.
+(* 3. data: lists built recursively, summed by a recursive case, a case in non-tail position *)
+Example C02_fragment2_example_data :
+  prog_guard ex_data = true /\ NoDup (map fdname (fcpdefs ex_data)) /\
+  compile_prog ex_data = Ok (compiled_or_empty ex_data) /\
+  run_fun 2000 ex_data [6%Z] = ([(true, 21%Z); (true, 36%Z)], OExit 0%Z) /\
+  run_core 4000 (compiled_or_empty ex_data) [6%Z] = ([(true, 21%Z); (true, 36%Z)], OExit 0%Z).
+Proof. exact ex_data_ok. Qed.
+(* 4. labels: goto out of a conditional under an operator, a label passed to a consumer parameter
+   and jumped to from the callee *)
+Example C02_fragment2_example_labels :
+  prog_guard ex_labels = true /\ NoDup (map fdname (fcpdefs ex_labels)) /\
+  compile_prog ex_labels = Ok (compiled_or_empty ex_labels) /\
+  run_fun 1000 ex_labels [5%Z] = ([(true, 1042%Z); (true, 1006%Z); (true, 10%Z)], OExit 0%Z) /\
+  run_core 2000 (compiled_or_empty ex_labels) [5%Z] = ([(true, 1042%Z); (true, 1006%Z); (true, 10%Z)], OExit 0%Z).
+Proof. exact ex_labels_ok. Qed.
+
+(* 5. codata: a corecursive stream (`new`), destructors on variables, chained destructors, a call as
+   scrutinee, a by-name let, a by-name argument *)
+Example C02_fragment2_example_codata :
+  prog_guard ex_codata = true /\ NoDup (map fdname (fcpdefs ex_codata)) /\
+  compile_prog ex_codata = Ok (compiled_or_empty ex_codata) /\
+  run_fun 1000 ex_codata [10%Z] = ([(true, 13%Z); (true, 10%Z); (true, 12%Z); (true, 7%Z)], OExit 0%Z) /\
+  run_core 2000 (compiled_or_empty ex_codata) [10%Z] = ([(true, 13%Z); (true, 10%Z); (true, 12%Z); (true, 7%Z)], OExit 0%Z).
+Proof. exact ex_codata_ok. Qed.
+
+(* the guard is necessary: the capture witness (C02_fun2core_capture_refuted) is in the fragment and
+   well-scoped - what it violates is exactly the capture guard; the call-to-main witness violates frag *)
+Theorem C02_guard_rejects_capture_witness :
+  forallb (fun d => frag capture_witness (fdbody d) && kd capture_witness (fdbody d) && ws (compile_ctx (fdctx d)) (fdbody d)) (fcpdefs capture_witness) = true /\
+  existsb (fun d => negb (nocap (fdbody d))) (fcpdefs capture_witness) = true /\
+  prog_guard capture_witness = false /\ prog_guard call_main_witness = false.
+Proof. vm_compute. repeat split; reflexivity. Qed.
+Print Assumptions C02_guard_rejects_capture_witness.
 
 (* ---------- for property C19 (output size): continuations are shared, not duplicated ---------- *)
 (* `if` with a continuation that is not a leaf: the continuation is lifted ONCE by `share` (it sits in
